@@ -23,25 +23,25 @@ open C14
 theorem C14_tie_commands_loop1 (hsize : Int) (it : F) (st : Int × Int) :
     Gen.HistGc.gcCommands_loop1 hsize it st = cumBody ncmds hsize it st := by
   unfold Gen.HistGc.gcCommands_loop1 cumBody ncmds
-  by_cases h : st.2 + it.2.1 > hsize <;> simp [h]
+  grind
 
 theorem C14_tie_commands_loop2 (it : F) (st : Int) :
     Gen.HistGc.gcCommands_loop2 it st = sumBody ncmds it st := by
-  unfold Gen.HistGc.gcCommands_loop2 sumBody ncmds; simp
+  unfold Gen.HistGc.gcCommands_loop2 sumBody ncmds; grind
 
 theorem C14_tie_bytes_loop1 (hsize : Int) (it : F) (st : Int × Int) :
     Gen.HistGc.gcBytes_loop1 hsize it st = cumBody fsize hsize it st := by
   unfold Gen.HistGc.gcBytes_loop1 cumBody fsize
-  by_cases h : st.2 + it.2.2.2 > hsize <;> simp [h]
+  grind
 
 theorem C14_tie_bytes_loop2 (it : F) (st : Int) :
     Gen.HistGc.gcBytes_loop2 it st = sumBody fsize it st := by
-  unfold Gen.HistGc.gcBytes_loop2 sumBody fsize; simp
+  unfold Gen.HistGc.gcBytes_loop2 sumBody fsize; grind
 
 theorem C14_tie_seconds_loop1 (hsize now : Int) (it : F) (st : Int) :
     Gen.HistGc.gcSeconds_loop1 hsize now it st = oldBody hsize now it st := by
   unfold Gen.HistGc.gcSeconds_loop1 oldBody ts
-  by_cases h : now - it.1 < hsize <;> simp [h]
+  grind
 
 /-! ## spec lemmas -/
 
@@ -330,3 +330,85 @@ example : WF 3 (cands [((10, 2, 1, 100), false), ((20, 5, 2, 300), true), ((30, 
 
 example : specRun .commands true 3 0 [((10, 2, 1, 100), false), ((20, 5, 2, 300), true), ((30, 2, 3, 50), false)]
     = [(10, 2, 1, 100)] := by decide
+
+/-! ## SQLite keep-newest-N (hand model `HistGc.sqlKept` of `_xh_sqlite_delete_records`) -/
+
+def descLe (a b : Int) : Bool := decide (b ≤ a)
+
+theorem sorted_desc (rows : List Int) : (rows.mergeSort descLe).Pairwise (fun a b => b ≤ a) := by
+  have h := List.pairwise_mergeSort (le := descLe)
+    (by intro a b c; simp [descLe]; omega) (by intro a b; simp [descLe]; omega) rows
+  exact h.imp (by intro a b; simp [descLe])
+
+theorem sqlKept_eq (n : Nat) (rows : List Int) :
+    sqlKept n rows =
+      match ((rows.mergeSort descLe).take n).getLast? with
+      | none => rows
+      | some t => rows.filter (fun r => !decide (r < t)) := by
+  unfold sqlKept sqlThreshold descLe; rfl
+
+/-- everything SQLite deletes is strictly older than everything it keeps -/
+theorem C14_sql_deleted_older (n : Nat) (rows : List Int) (d k : Int)
+    (hd : d ∈ rows) (hnd : d ∉ sqlKept n rows) (hk : k ∈ sqlKept n rows) : d < k := by
+  rw [sqlKept_eq] at hnd hk
+  split at hnd
+  · exact absurd hd hnd
+  · rename_i t ht
+    rw [ht] at hk
+    simp only [List.mem_filter, Bool.not_eq_true', decide_eq_false_iff_not] at hnd hk
+    have : d < t := by
+      by_cases h : d < t
+      · exact h
+      · exact absurd ⟨hd, h⟩ hnd
+    omega
+
+/-- nothing is invented: the surviving rows are a sub-list of the table -/
+theorem C14_sql_sublist (n : Nat) (rows : List Int) : (sqlKept n rows).Sublist rows := by
+  rw [sqlKept_eq]
+  split
+  · exact List.Sublist.refl _
+  · exact List.filter_sublist
+
+theorem take_all_ge_last (s : List Int) (hs : s.Pairwise (fun a b => b ≤ a)) (n : Nat) (t : Int)
+    (ht : (s.take n).getLast? = some t) : ∀ x ∈ s.take n, t ≤ x := by
+  intro x hx
+  have hp : (s.take n).Pairwise (fun a b => b ≤ a) := hs.sublist (List.take_sublist n s)
+  obtain ⟨l', hl'⟩ : ∃ l', s.take n = l' ++ [t] := by
+    have := List.getLast?_eq_some_iff.mp ht
+    obtain ⟨ys, hys⟩ := this
+    exact ⟨ys, hys⟩
+  rw [hl'] at hx hp
+  rcases List.mem_append.mp hx with h | h
+  · exact (List.pairwise_append.mp hp).2.2 x h t (by simp)
+  · simp at h; omega
+
+/-- at least the newest N commands survive (all of them when the table is smaller) -/
+theorem C14_sql_keeps_at_least (n : Nat) (rows : List Int) :
+    min n rows.length ≤ (sqlKept n rows).length := by
+  rw [sqlKept_eq]
+  split
+  · omega
+  · rename_i t ht
+    have hs := sorted_desc rows
+    have hperm : (rows.mergeSort descLe).Perm rows := List.mergeSort_perm rows descLe
+    have hall := take_all_ge_last _ hs n t ht
+    have h1 : (rows.filter (fun r => !decide (r < t))).length =
+        ((rows.mergeSort descLe).filter (fun r => !decide (r < t))).length :=
+      (hperm.filter _).length_eq.symm
+    have h2 : (((rows.mergeSort descLe).take n).filter (fun r => !decide (r < t))).Sublist
+        ((rows.mergeSort descLe).filter (fun r => !decide (r < t))) :=
+      (List.take_sublist n _).filter _
+    have h3 : ((rows.mergeSort descLe).take n).filter (fun r => !decide (r < t)) =
+        (rows.mergeSort descLe).take n := by
+      apply List.filter_eq_self.mpr
+      intro x hx; have := hall x hx; simp; omega
+    rw [h3] at h2
+    have h4 := h2.length_le
+    have h5 : ((rows.mergeSort descLe).take n).length = min n rows.length := by
+      simp [List.length_take, hperm.length_eq]
+    omega
+
+/-- KNOWN FINDING `sqlite-keep-zero`: with N = 0 the model (like the code) keeps every row -/
+theorem C14_sql_zero_cex : sqlKept 0 [3, 1, 2] = [3, 1, 2] := by decide
+
+example : min 2 [5, 1, 9, 3].length ≤ (sqlKept 2 [5, 1, 9, 3]).length := C14_sql_keeps_at_least _ _
